@@ -69,9 +69,15 @@ struct MQ {
     {
         return mpq_sgn(v) == 0;
     }
-    double toD() const
+    // value as long double (53 significant bits, long double exponent range: multi-limb numbers neither overflow
+    // nor underflow)
+    long double toLD() const
     {
-        return mpq_get_d(v);
+        if (mpq_sgn(v) == 0)
+            return 0.0L;
+        long en = 0, ed = 0;
+        double dn = mpz_get_d_2exp(&en, mpq_numref(v)), dd = mpz_get_d_2exp(&ed, mpq_denref(v));
+        return ldexpl((long double)dn / (long double)dd, (int)(en - ed));
     }
 };
 static MQ operator+(const MQ &a, const MQ &b)
@@ -291,7 +297,7 @@ static bool cpowPrincipal(CL w, CL e, CL &out, bool &cut)
 {
     w = fixz(w);
     long double a = std::abs(w);
-    if (!(a > 1e-9L) || !(a < 1e30L)) {
+    if (!(a > 1e-9L) || !(a < 1e1000L)) {
         cut = false;
         return false;
     }
@@ -325,12 +331,12 @@ static int evn(const Basic &b, uint64_t pt, CL &out)
     switch (b.get_type_code()) {
         case SYMENGINE_INTEGER:
         case SYMENGINE_RATIONAL:
-            out = CL((long double)MQ::fromStr(vsexp::dump(b)).toD(), 0);
+            out = CL(MQ::fromStr(vsexp::dump(b)).toLD(), 0);
             return 0;
         case SYMENGINE_COMPLEX: {
             const Complex &c = down_cast<const Complex &>(b);
-            out = CL((long double)MQ::fromStr(vsexp::rat_str(c.real_)).toD(),
-                     (long double)MQ::fromStr(vsexp::rat_str(c.imaginary_)).toD());
+            out = CL(MQ::fromStr(vsexp::rat_str(c.real_)).toLD(),
+                     MQ::fromStr(vsexp::rat_str(c.imaginary_)).toLD());
             return 0;
         }
         case SYMENGINE_CONSTANT: {
@@ -697,7 +703,7 @@ std::string hx_run(const std::string &line, std::string &oracle)
                 continue;
             }
             long double scale = std::max(std::abs(want), std::abs(got));
-            if (!(scale < 1e25L) || !(scale > 1e-25L)) {
+            if (!(scale < 1e2000L) || !(scale > 1e-2000L)) {
                 stat("numeric_points_discarded");
                 continue;
             }
@@ -706,7 +712,19 @@ std::string hx_run(const std::string &line, std::string &oracle)
                 char buf[256];
                 snprintf(buf, sizeof buf, "result=(%.12Lg,%.12Lg) recipe=(%.12Lg,%.12Lg) point %d", got.real(), got.imag(),
                          want.real(), want.imag(), pt);
-                oracle = std::string("FAIL:numeric:") + buf;
+                std::string key = "numeric";
+                // Known finding: pow(pow(c,-1), b) -> c**(-b) with a *constant* base c on the negative real axis and
+                // non-integer b returns the complex conjugate of the principal value.  Classified narrowly: the
+                // operand is Pow(c, -1), c evaluates to a negative real, and the result is conj(recipe).
+                if ((os.name == "pow" || os.name == "sqrt" || os.name == "cbrt") && is_a<Pow>(*args[0])
+                    && eq(*down_cast<const Pow &>(*args[0]).get_exp(), *minus_one)) {
+                    CL b0;
+                    if (evn(*down_cast<const Pow &>(*args[0]).get_base(), pt, b0) == 0 && b0.real() < 0
+                        && std::fabs(b0.imag()) <= 1e-12L * std::fabs(b0.real())
+                        && std::abs(std::conj(want) - got) <= 1e-9L * scale)
+                        key = "invpow-negreal";
+                }
+                oracle = "FAIL:" + key + ":" + buf;
             }
         }
         stat("numeric_points_judged", judged);
